@@ -338,4 +338,31 @@ extern "C" void h_c08_emptyconstraint()
    for(int j = 0; j < PNC; ++j) vp_assert(w.x[j] == z.x[j] && w.cS[j] == (VS)z.cs[j], 11);
    vp_cover(1);
 }
+// ---------------------------------------------------------------------------------------------------------------------
+// TightenBoundsPS (propagatePseudoobj): constructed with the ORIGINAL bounds (lp,j,upper,lower) before one bound of column j is
+// tightened. The tightening is justified by an objective cutoff, which cannot be expressed here; instead the harness assumes its
+// consequence for the given reduced optimum: a NONBASIC x_j sits at an ORIGINAL bound with the reduced-cost sign that bound needs
+// (it may carry the status FIXED/ON_LOWER/ON_UPPER of the tightened bounds). The step then only has to repair the status.
+extern "C" void h_c08_tightenbounds()
+{
+   const int J = FV_J;
+   LP lp; set_sense(lp); Dense<PNR, PNC> d; build<PNR, PNC>(lp, d, (1u << (PNR * PNC)) - 1, KV);
+   DLP p; dlp_from<PNR, PNC>(p, d, IS_MIN);
+   vp_assume(p.lo[J] < p.up[J]);
+   int upper = vp_int_in(0, 1);
+   double nb = vp_small(-KV, KV);
+   SM::TightenBoundsPS ps(lp, J, lp.upper(J), lp.lower(J), mk_tols());
+   DLP q = p;
+   if(upper) { vp_assume(p.lo[J] <= nb && nb < p.up[J]); q.up[J] = nb; }
+   else      { vp_assume(p.lo[J] < nb && nb <= p.up[J]); q.lo[J] = nb; }
+   DSol z; draw_reduced(q, z);
+   if(z.cs[J] != ST_BA) vp_assume((z.x[J] == p.lo[J] && z.r[J] >= 0.0) || (z.x[J] == p.up[J] && z.r[J] <= 0.0) || z.cs[J] == ST_ZE);
+   Work w(PNR, PNC); load_work(w, q, z, PNR, PNC);
+   ps.execute(w.x, w.y, w.s, w.r, w.cS, w.rS, true);
+   check_kkt(p, w);
+   for(int j = 0; j < PNC; ++j) vp_assert(w.x[j] == z.x[j], 10);
+   if(z.cs[J] == ST_FX && w.cS[J] == ST_LO) vp_cover(2);
+   if(z.cs[J] == ST_FX && w.cS[J] == ST_UP) vp_cover(3);
+   vp_cover(1);
+}
 #endif
